@@ -244,6 +244,8 @@ class Interp:
         self.cur_fn = None
         self.record = False
         self.memo = {}
+        self.ext = set()          # names of E8 (external) rule functions
+        self.ext_entry = {}       # external fn -> tokens it is entered with at verified call sites
 
     # -- helpers
     def callee_outcome(self, callee, state):
@@ -255,6 +257,14 @@ class Interp:
                 self.Ccalls[callee] = set(self.ALL)
             if prog != "P":
                 self.edges.add((self.cur_fn, callee))
+        if callee in self.ext:
+            # E8 function (unverified): ASSUMED to consume when it is entered on a token a verified
+            # caller dispatches on; the set of such tokens becomes part of its assumed contract
+            if tok is not None:
+                if self.record:
+                    self.ext_entry.setdefault(callee, set()).add(tok)
+                return ("P", None)
+            return ("P", None) if prog == "P" else ("U", None)
         if tok is not None:
             if tok in self.P.get(callee, ()):
                 return ("P", None)
@@ -792,6 +802,7 @@ def annotate(ix, ed, report, skeleton_only=False):
         # external (unverified) functions may call anything on any token
         entries = set(fns)
     it = Interp(alphabet, fns, entries, report.get("eoi", ["EOF"]))
+    it.ext = set(k for k, (f_, b_) in fobj.items() if b_ is None)
     rounds = it.run()
     rank = it.ranks()
     st = ix.st
@@ -867,8 +878,11 @@ def annotate(ix, ed, report, skeleton_only=False):
     for key, (f, body) in fobj.items():
         if body is None:
             sig = "(p: &mut Parser<'a>, diags: &mut Vec<<Parser<'a> as ParserCallbacks<'a>>::Diagnostic>)"
+            K = it.ext_entry.get(key, set())
+            prog = tokset("old(p).current", K, alphabet) if K else "false"
+            rep["functions"][key]["assumed_progress_on"] = sorted(K)
             if f.has_ret:
-                ext_specs.append("pub assume_specification<'a> [Parser::<'a>::%s] %s -> (r: Option<()>)\n    requires old(p).wf(),\n    ensures (r is Some ==> final(p).step(old(p))), (r is None ==> old(p).in_ordered_choice && final(p).wf() && final(p).same_input(old(p))),\n        (!old(p).in_ordered_choice ==> !final(p).in_ordered_choice);\n" % (f.name, sig))
+                ext_specs.append("pub assume_specification<'a> [Parser::<'a>::%s] %s -> (r: Option<()>)\n    requires old(p).wf(),\n    ensures (r is Some ==> final(p).step(old(p))), (r is None ==> old(p).in_ordered_choice && final(p).wf() && final(p).same_input(old(p))),\n        (!old(p).in_ordered_choice ==> !final(p).in_ordered_choice),\n        (r is Some && %s ==> final(p).pos > old(p).pos);\n" % (f.name, sig, prog))
             else:
-                ext_specs.append("pub assume_specification<'a> [Parser::<'a>::%s] %s\n    requires old(p).wf(), !old(p).in_ordered_choice,\n    ensures final(p).step(old(p)), !final(p).in_ordered_choice;\n" % (f.name, sig))
+                ext_specs.append("pub assume_specification<'a> [Parser::<'a>::%s] %s\n    requires old(p).wf(), !old(p).in_ordered_choice,\n    ensures final(p).step(old(p)), !final(p).in_ordered_choice,\n        (%s ==> final(p).pos > old(p).pos);\n" % (f.name, sig, prog))
     report["ext_specs"] = ext_specs + c07_specs
